@@ -1,2 +1,5 @@
 import PercevalModel.Num.GQ
 import PercevalModel.Found.LinAlg
+import PercevalModel.Found.Memo
+import PercevalModel.Proto
+import PercevalModel.Props.C01
